@@ -75,7 +75,9 @@ def rhReport {α : Type} (src : List PObj) (o : Out α) (shown : α → String) 
    | .ok v => "ok " ++ shown v
    | .error e => "err:" ++ rhErr e)
   ++ " | src=" ++ (if o.heap.src == src then "same" else "CHANGED")
-  ++ " | stores=" ++ " ".intercalate (o.log.map fun s => rhLoc s.target ++ "[" ++ toString s.index ++ "]")
+  -- (only the stores into SOURCE objects: the harness cannot see a store into a list the code allocated itself)
+  ++ " | stores=" ++ " ".intercalate ((o.log.filter fun s => match s.target with | .src _ => true | .own _ => false).map
+        fun s => rhLoc s.target ++ "[" ++ toString s.index ++ "]")
 
 def handleRowHeap : List Sexp → Option String
   -- the maps on ONE value (`m(row)` for a single nest map)
